@@ -49,6 +49,8 @@ P = [
  ("seeded C12-r1b", "seeded/C12-r1b/patch.diff", False, ["C12"]),
  ("seeded C03-t3a (ExtraFiles.deserialize re-files through add() without clearing)", "seeded/C03-t3a/patch.diff", False, ["C03"]),
  ("seeded C12-t3a", "seeded/C12-t3a/patch.diff", False, ["C12"]),
+ ("seeded C12-u3a (_relative_to uses path.replace(root, ''))", "seeded/C12-u3a/patch.diff", False, ["C12"]),
+ ("seeded C03-u1a (dump_for_tree shallow copy rewrites stored records)", "seeded/C03-u1a/patch.diff", False, ["C03", "C12"]),
  ("seeded C12-s2a (Modules.add overwrites the RPM list)", "seeded/C12-s2a/patch.diff", False, ["C12", "C03"]),
  ("seeded C12-s2b (setdefault of variant/arch before the srpm check)", "seeded/C12-s2b/patch.diff", False, ["C12"]),
  ("seeded C03-s3a (sigkey lower-cased on load instead of in add)", "seeded/C03-s3a/patch.diff", False, ["C03", "C12"]),
